@@ -315,6 +315,10 @@ def _mk_tile_compressor(
 
     tile_shape = meta.chunks
     encoder = TIFF.COMPRESSORS[meta.compression]
+    if meta.compression == 1:
+        # COMPRESSION.NONE maps to an identity function that returns the
+        # ndarray itself rather than bytes
+        encoder = None
 
     predictor = None
     if meta.predictor != 1:
